@@ -302,7 +302,14 @@ func c07Burst(c *core.Ctx, idx int) {
 	}
 	bs := gen.Bodies()
 	var parts []string
+	short := r.Chance(1, 2)
 	for len(parts) < k {
+		if short && r.Chance(3, 4) {
+			// short statements, each unique: errors come a few tokens apart
+			i := len(parts)
+			parts = append(parts, []string{fmt.Sprintf("f%d();", i), fmt.Sprintf("$v%d = %d;", i, i), fmt.Sprintf("echo %d;", i), fmt.Sprintf("$o->m%d($a, %d);", i, i), fmt.Sprintf("if ($c) { g%d(); }", i)}[r.Intn(5)])
+			continue
+		}
 		b := bs[r.Intn(len(bs))]
 		if !bodyParses(b) || len(b) > 400 {
 			continue
